@@ -45,6 +45,28 @@ RefLoop(root, d, next, n, w) ==
 RefLayout(n, w) == IF n = 0 THEN Leaf(0) ELSE RefLoop(Leaf(1), 1, 1, n, w)
 
 (***************************************************************************)
+(* Reference trickle layout: transcription of boxo importer/trickle        *)
+(* Layout + fillTrickleRec (depthRepeat = 4).  A node first takes up to w  *)
+(* leaves, then for depth = 1, 2, ... four sub-trees of that depth each,   *)
+(* until the data ends (or, for a sub-tree, until its depth limit).        *)
+(* Not the layout this library writes - it is one this library must read   *)
+(* (C01), and its mixed-depth nodes are a useful adversary for readers.    *)
+(***************************************************************************)
+DepthRepeat == 4
+RECURSIVE TrLeaves(_, _, _, _)
+TrLeaves(ks, next, n, w) == IF Len(ks) < w /\ next < n THEN TrLeaves(Append(ks, Leaf(next + 1)), next + 1, n, w)
+                            ELSE [ks |-> ks, next |-> next]
+RECURSIVE TrRec(_, _, _, _), TrLoop(_, _, _, _, _, _, _)
+TrRec(maxDepth, next, n, w) ==
+  LET l == TrLeaves(<<>>, next, n, w) IN TrLoop(l.ks, 1, 0, l.next, maxDepth, n, w)
+TrLoop(ks, depth, rep, next, maxDepth, n, w) ==
+  IF (maxDepth # -1 /\ depth >= maxDepth) \/ next >= n THEN [t |-> Node(ks), next |-> next]
+  ELSE IF rep = DepthRepeat THEN TrLoop(ks, depth + 1, 0, next, maxDepth, n, w)
+       ELSE LET r == TrRec(depth, next, n, w)
+            IN  TrLoop(Append(ks, r.t), depth, rep + 1, r.next, maxDepth, n, w)
+RefTrickle(n, w) == TrRec(-1, 0, n, w).t
+
+(***************************************************************************)
 (* Builder layout: transcription of data/builder/file.go                   *)
 (* BuildUnixFSFile + fileTreeRecursive.  `collapse` selects the rule for   *)
 (* a call that ends up with exactly one child:                             *)
